@@ -37,4 +37,198 @@ theorem normFlt_value (n : Int) (e : Nat) :
       rw [Int.mul_comm (n / 2 * 2 ^ (normFlt (n / 2) e).2) 2, ← Int.mul_assoc, Int.mul_comm 2 (n / 2), h2]
     · rfl
 
+theorem mergeLoop_lookup (cur : KVs) (nkvs : KVs) (hn : KV.Nodup nkvs) (upd : KVs) (k : String) :
+    KV.lookup k (mergeLoop cur upd nkvs) =
+      match KV.lookup k nkvs with
+      | some nv => some (mergeItem cur k nv)
+      | none => KV.lookup k upd := by
+  induction nkvs generalizing upd with
+  | nil => simp [mergeLoop]
+  | cons hd tl ih =>
+    obtain ⟨k0, v0⟩ := hd
+    have hn' : k0 ∉ KV.keys tl ∧ KV.Nodup tl := by
+      unfold KV.Nodup KV.keys at hn ⊢
+      simpa [List.nodup_cons] using hn
+    have hstep : mergeLoop cur upd ((k0, v0) :: tl) = mergeLoop cur (KV.set k0 (mergeItem cur k0 v0) upd) tl := by
+      simp only [mergeLoop]
+    rw [hstep, ih hn'.2]
+    by_cases hk : k0 = k
+    · subst hk
+      have : KV.lookup k0 tl = none := (KV.lookup_none_iff_not_mem_keys k0 tl).mpr hn'.1
+      simp [this, KV.lookup]
+    · have hk' : k ≠ k0 := fun e => hk e.symm
+      simp only [KV.lookup, hk, if_false]
+      cases KV.lookup k tl with
+      | some nv => rfl
+      | none => simp only; exact KV.lookup_set_other hk' _ _
+
+/-! ## association lists of stores -/
+
+namespace AL
+variable {α : Type}
+
+@[simp] theorem lookup_set_same (k : String) (v : α) (l : List (String × α)) :
+    lookup k (set k v l) = some v := by
+  induction l with
+  | nil => simp [set, lookup]
+  | cons hd tl ih =>
+    obtain ⟨k', v'⟩ := hd
+    by_cases h : k' = k <;> simp [set, lookup, h, ih]
+
+theorem lookup_set_other {k k' : String} (h : k' ≠ k) (v : α) (l : List (String × α)) :
+    lookup k' (set k v l) = lookup k' l := by
+  induction l with
+  | nil => simp [set, lookup]; intro h'; exact absurd h'.symm h
+  | cons hd tl ih =>
+    obtain ⟨k0, v0⟩ := hd
+    by_cases h0 : k0 = k
+    · subst h0
+      have : ¬ (k0 = k') := fun e => h e.symm
+      simp [set, lookup, this]
+    · by_cases h1 : k0 = k'
+      · subst h1; simp [set, lookup, h0]
+      · simp [set, lookup, h0, h1, ih]
+
+theorem lookup_erase_other {k k' : String} (h : k' ≠ k) (l : List (String × α)) :
+    lookup k' (erase k l) = lookup k' l := by
+  induction l with
+  | nil => simp [erase]
+  | cons hd tl ih =>
+    obtain ⟨k0, v0⟩ := hd
+    unfold erase at ih ⊢
+    by_cases h0 : k0 = k
+    · subst h0
+      have : ¬ (k0 = k') := fun e => h e.symm
+      simp [lookup, this, ih]
+    · by_cases h1 : k0 = k'
+      · subst h1; simp [lookup, h0]
+      · simp [lookup, h0, h1, ih]
+
+end AL
+
+theorem Store.resolve_cons (a : Attrs) (inner : List (String × Store)) (k : String) (rest : Path) :
+    (Store.mk a inner).resolve (k :: rest) = (AL.lookup k inner).bind (fun c => c.resolve rest) := by
+  simp only [Store.resolve]
+  cases AL.lookup k inner <;> rfl
+
+/-- an update that does not address the node at path `p`: along `p`, every entry of the update for
+the next key again does not address the rest of the path (in particular: the key is absent);
+a `_multi_update` when none of its elements does.  No `_divide` on the way. -/
+inductive Unmentioned : Val → Path → Prop where
+  | multi {kvs : KVs} {us : List Val} {p : Path} :
+      KV.lookup Generated.multiUpdateKey kvs = some (.list us) →
+      (∀ u ∈ us, Unmentioned u p) → Unmentioned (.dict kvs) p
+  | branch {kvs : KVs} {k : String} {rest : Path} :
+      KV.lookup Generated.multiUpdateKey kvs = none → KV.lookup "_divide" kvs = none →
+      (∀ kv ∈ kvs, kv.1 = k → Unmentioned kv.2 rest) → Unmentioned (.dict kvs) (k :: rest)
+
+theorem foldlM_updateChild_frame (rec : World → Store → Val → Except Err (World × Store))
+    (k : String) (rest : Path)
+    (hrec : ∀ w s u w' s', Unmentioned u rest → rec w s u = .ok (w', s') → s'.resolve rest = s.resolve rest)
+    (l : KVs) (hl : ∀ kv ∈ l, kv.1 = k → Unmentioned kv.2 rest) :
+    ∀ ws ws', l.foldlM (updateChild rec) ws = .ok ws' →
+      ws'.2.resolve (k :: rest) = ws.2.resolve (k :: rest) := by
+  induction l with
+  | nil => intro ws ws' h; simp [List.foldlM, pure, Except.pure] at h; rw [h]
+  | cons hd tl ih =>
+    intro ws ws' h
+    simp only [List.foldlM, bind, Except.bind] at h
+    cases hstep : updateChild rec ws hd with
+    | error e => simp [hstep] at h
+    | ok ws1 =>
+      simp only [hstep] at h
+      have h1 := ih (fun kv hkv => hl kv (List.mem_cons_of_mem _ hkv)) ws1 ws' h
+      rw [h1]
+      -- one step
+      obtain ⟨w, s⟩ := ws
+      obtain ⟨a, inner⟩ := s
+      unfold updateChild at hstep
+      simp only at hstep
+      cases hc : AL.lookup hd.1 inner with
+      | none => simp [hc] at hstep; rw [← hstep]
+      | some c =>
+        simp only [hc] at hstep
+        cases hr : rec w c hd.2 with
+        | error e => simp [hr] at hstep
+        | ok r =>
+          obtain ⟨w1, c1⟩ := r
+          simp only [hr] at hstep
+          injection hstep with hstep
+          rw [← hstep]
+          simp only [Store.resolve_cons]
+          by_cases hk : hd.1 = k
+          · have hu := hl hd (List.mem_cons_self) hk
+            have := hrec w c hd.2 w1 c1 hu hr
+            rw [← hk, AL.lookup_set_same, hc]; simpa using this
+          · rw [AL.lookup_set_other (fun e => hk e.symm)]
+
+theorem foldlM_multi_frame (rec : World → Store → Val → Except Err (World × Store)) (p : Path)
+    (us : List Val)
+    (hrec : ∀ u ∈ us, ∀ w s w' s', rec w s u = .ok (w', s') → s'.resolve p = s.resolve p) :
+    ∀ ws ws', us.foldlM (fun (ws : World × Store) u => rec ws.1 ws.2 u) ws = .ok ws' →
+      ws'.2.resolve p = ws.2.resolve p := by
+  induction us with
+  | nil => intro ws ws' h; simp [List.foldlM, pure, Except.pure] at h; rw [h]
+  | cons hd tl ih =>
+    intro ws ws' h
+    simp only [List.foldlM, bind, Except.bind] at h
+    cases hstep : rec ws.1 ws.2 hd with
+    | error e => simp [hstep] at h
+    | ok ws1 =>
+      simp only [hstep] at h
+      have h1 := ih (fun u hu => hrec u (List.mem_cons_of_mem _ hu)) ws1 ws' h
+      rw [h1]
+      exact hrec hd List.mem_cons_self ws.1 ws.2 ws1.1 ws1.2 hstep
+
+/-- **Frame** of `apply_update` over a tree of variables: a node the update does not address is
+the same node afterwards (same value, same schema, same subtree). -/
+theorem applyUpdate_frame (E : Env) : ∀ (fuel : Nat) (w : World) (s : Store) (u : Val) (w' : World)
+    (s' : Store) (p : Path), Unmentioned u p → applyUpdate E fuel w s u = .ok (w', s') →
+    s'.resolve p = s.resolve p := by
+  intro fuel
+  induction fuel with
+  | zero => intro w s u w' s' p _ h; simp [applyUpdate] at h
+  | succ fuel ih =>
+    intro w s u w' s' p hU h
+    obtain ⟨a, inner⟩ := s
+    cases hU with
+    | multi hm hall =>
+      rename_i kvs us
+      unfold applyUpdate at h
+      simp only [hm] at h
+      exact foldlM_multi_frame (applyUpdate E fuel) p us
+        (fun u hu w s w' s' hr => ih w s u w' s' p (hall u hu) hr) _ _ h
+    | branch hm hd hall =>
+      rename_i kvs k rest
+      unfold applyUpdate at h
+      simp only [hm] at h
+      cases inner with
+      | nil =>
+        -- a leaf: whatever happens, it stays a leaf, so nothing is below it before or after
+        simp only [List.isEmpty_nil, Bool.not_true, Bool.false_eq_true, if_false] at h
+        have hs' : s'.inner = [] := by
+          split at h
+          · simp at h
+          · split at h
+            · simp at h
+            · rename_i v keeps heq
+              split at h <;> (injection h with h; injection h with _ h2; rw [← h2]; rfl)
+        obtain ⟨a', inner'⟩ := s'
+        simp only [Store.inner] at hs'
+        subst hs'
+        simp [Store.resolve_cons, AL.lookup]
+      | cons c0 cs =>
+        simp only [List.isEmpty_cons, Bool.not_false, if_true] at h
+        split at h
+        · simp at h
+        · simp only [hd] at h
+          refine foldlM_updateChild_frame (applyUpdate E fuel) k rest
+            (fun w s u w' s' hu hr => ih w s u w' s' rest hu hr) _ ?_ _ _ h
+          intro kv hkv hk
+          have : kv ∈ kvs := by
+            have := (List.mem_filter.mp hkv).1
+            unfold KV.erase at this
+            exact (List.mem_filter.mp this).1
+          exact hall kv this hk
+
 end Viv
